@@ -8,6 +8,9 @@ TRUST = ("Trusted base: rustc/std, the sha2 crate, the simulator (its PRNG, CBOR
          "against the model writer). Sampled, not exhaustive, unless the evidence says exhaustive for a sub-space; bounds are in the evidence file.")
 
 CHECKS = {
+ "C20": ("exploration", "§10 C20",
+   "2-8 (thorough: up to 16) shuttle threads each run 1-4 operations drawn from {format, format_flat, tree_format, diagnostic_annotated, hex, register_tags, format-context read, known-value / function / parameter registry lookups, dcbor-level annotated diagnostic, codec/digest of an Arc-shared envelope, register_tags-then-ur_string} over the real registry code, every execution starting from uninitialised registries, under seeded Random and PCT(1-3) schedules. Oracles: completion (deadlock, re-entrant acquisition, poisoned lock, panic), every formatting result equals a text the call returns alone, linearizability of results against a monotone three-state model (S0 nothing initialised / S1 context initialised / S2 register_tags done) using invoke/return sequence stamps, identical digest/bytes for the shared envelope, ur_string after own register_tags never panics.",
+   "deterministic schedule simulation (shuttle Random/PCT) with linearizability check against a 3-state sequential model"),
  "C17": ("exploration", "§10 C17",
    "Salting operations (add_salt, add_salt_with_len around 8, add_salt_in_range with lower bounds around 8, add_assertion_salted true/false) on envelopes of serialized size 1 B - 10 KB (padding steers sizes across the rule's 64/160/320-byte switch points), every draw coming from the simulator-owned library RNG stream, plus hostile boundary draws through add_salt_using. Oracles: subject and prior assertions unchanged, exactly one 'salt' assertion of documented length, short requests refused, salted assertion found by predicate and carrying exactly one salt, independent saltings differ in digest, unsalted add deterministic.",
    "deterministic simulation over the library RNG seam (seeded stream + boundary draws)"),
